@@ -23,6 +23,14 @@ var vpRouteSets = map[string][]vpUpstreamCfg{
 
 var vpRouteQueries = map[string]string{"none": "", "simple": "?k=v", "canon2": "?a=1&b=2", "unsorted": "?b=2&a=1&b=0", "encoded": "?q=%2Fx%20y+z&e=%C3%A9"}
 
+// what every recording upstream answers with: repeated lines, values containing commas, upstream cookies
+func vpUpRespHeader() http.Header {
+	return http.Header{"X-Up": {"u1", "u2"}, "Content-Type": {"text/x-test"},
+		"Www-Authenticate": {`Basic realm="a"`, `Bearer realm="b", error="x"`}, "Vary": {"Accept", "Cookie"},
+		"Link": {`</a>; rel="next"`, `</b>; rel="prev"`}, "Set-Cookie": {"up1=1; Path=/", "up2=2; Path=/x"},
+		"X-Empty": {""}, "X-Comma": {"a, b", "c"}}
+}
+
 func init() {
 	vpRegister("route", func(t *testing.T, env *vpEnv) {
 		voc, err := vpLoadVocab()
@@ -49,7 +57,7 @@ func init() {
 			defer w.close()
 			for id, u := range w.ups {
 				u.respStatus = 207
-				u.respHeader = http.Header{"X-Up": {"u1", "u2"}, "Content-Type": {"text/x-test"}}
+				u.respHeader = vpUpRespHeader()
 				u.respBody = []byte("body-of-" + id)
 			}
 			jar := vpNewJar()
@@ -95,8 +103,15 @@ func init() {
 					} else {
 						obs["hostOK"] = u.Host == strings.TrimPrefix(w.ups[u.Upstream].srv.URL, "http://")
 					}
-					obs["relayOK"] = r.Status == 207 && strings.Join(r.Header.Values("X-Up"), ",") == "u1,u2" && r.Header.Get("Content-Type") == "text/x-test" &&
-						string(r.Body) == "body-of-"+u.Upstream
+					// every header of the upstream's answer arrives with exactly its list of values (line by line, not joined)
+					relay := r.Status == 207 && string(r.Body) == "body-of-"+u.Upstream
+					for name, want := range vpUpRespHeader() {
+						if strings.Join(r.Header.Values(name), "\x00") != strings.Join(want, "\x00") {
+							relay = false
+							obs["relayDiff"] = map[string]interface{}{"name": name, "want": want, "got": r.Header.Values(name)}
+						}
+					}
+					obs["relayOK"] = relay
 					obs["gotTarget"] = u.Target
 				}
 				env.emit(vpOut{ID: c.ID, Obs: obs, Conc: map[string]interface{}{"target": req.Target}})
